@@ -195,6 +195,21 @@ where
             let param = ValidationErrorKind::IndexMagicByte;
             return Err(Error::validation(param, "Index magic byte is not valid").into());
         }
+        // Leaves are the last section of the file: a truncated index keeps its 'written' flag,
+        // so the extent implied by the header has to be compared with the real file size
+        let records_size = (self.header.records_count * self.header.record_header_size) as u64;
+        if self.file.size() != self.metadata.leaves_offset + records_size {
+            let param = ValidationErrorKind::IndexChecksum;
+            return Err(Error::validation(
+                param,
+                format!(
+                    "Index file size {} does not match the size implied by its header {}",
+                    self.file.size(),
+                    self.metadata.leaves_offset + records_size
+                ),
+            )
+            .into());
+        }
         Ok(())
     }
 
